@@ -27,7 +27,8 @@ RULE = ("part 1: generator P modules (test / fixture bodies with every statement
         "distinct = distinct tag multiset / distinct signature shape")
 ASSUMPTIONS = ["virtual paths (part 1)", "documents sent over stdio, not on disk (part 2)"]
 
-HELPERS = "import pytest\n\n@pytest.fixture\ndef srv():\n    return 1\n"
+HELPERS = ("import pytest\n\n@pytest.fixture\ndef srv():\n    return 1\n\n\n@pytest.fixture\ndef db():\n    return 0\n"
+           )     # an ordinary module, analysed FIRST, that also defines a name the conftest defines (db)
 SIBLING = "import pytest\n\n@pytest.fixture\ndef cfg():\n    return 1\n"     # in <root>/pk: a sibling of <root>/pkg whose name is a prefix of it
 CONFTEST = "import pytest\nfrom .helpers import *\n\n" + "".join("@pytest.fixture\ndef %s():\n    return 1\n\n" % n for n in ["db", "client", "fx_a", "cls"])
 
